@@ -254,3 +254,47 @@ func canarySwitchFall(x int) int {
 	}
 	return r
 }
+
+func canaryFieldFrame(p *Header) {
+	p.CommandFlags = 1
+}
+
+func canaryFrameCallee(p *Header) { p.Version = 3 }
+
+func canaryFrameCaller(p *Header) uint8 {
+	p.CommandFlags = 4
+	canaryFrameCallee(p)
+	return p.CommandFlags
+}
+
+func canaryEachRoundHelper(p *Header, v uint8) { p.Version = v }
+
+func canaryEachRoundSkips(p *Header, vs []uint8) {
+	for _, v := range vs {
+		if v == 7 {
+			continue
+		}
+		canaryEachRoundHelper(p, v)
+	}
+}
+
+func canaryEachRoundAll(p *Header, vs []uint8) {
+	for _, v := range vs {
+		canaryEachRoundHelper(p, v)
+	}
+}
+
+func canaryLoopFrame(p *Header, n int) {
+	for i := 0; i < n; i++ {
+		p.Version = 1
+		p.CommandFlags = 2
+	}
+}
+
+func canaryLoopFrameCall(p *Header, n int) {
+	for i := 0; i < n; i++ {
+		canaryFieldFrame2(p)
+	}
+}
+
+func canaryFieldFrame2(p *Header) { p.CommandFlags = 1 }
